@@ -3,7 +3,7 @@ CONSTANT Ns = {2, 3}
 CONSTANT GridNum <- ThoroughGrid
 CONSTANT GridDen = 2
 CONSTANT K = 6
-CONSTANT ListNs = {4, 5, 6, 8, 9}
+CONSTANT ListNs = {4, 5, 6, 8, 9, 12}
 CONSTANT NList = 40
 CONSTANT Emit = FALSE
 INVARIANT NearestIsPhysical
